@@ -236,3 +236,16 @@ func resourceHog(unlock, lock []byte, flags uint32, ctx progCtx) bool {
 	r := refscript.Verify(unlock, lock, modelOpts(&in, falseChecker{}, false))
 	return r.Unsupported != "" && r.Unsupported != "CLEANSTACK without P2SH"
 }
+
+var sharedEngine = interpreter.NewEngine()
+
+// theEngine returns the interpreter used for a case. The engine is documented
+// as stateless, so one instance serves every case of a child process (state
+// that survives an Execute call would show up as a case-order dependent
+// disagreement); in replay mode, where a single case runs, a fresh one is used.
+func theEngine(c *mon.Ctx) interpreter.Engine {
+	if c.Replay {
+		return interpreter.NewEngine()
+	}
+	return sharedEngine
+}
